@@ -140,7 +140,7 @@ func renderFrags(r *rand.Rand, fs []jfrag, k int) string {
 }
 
 var jsonNumbers = []string{"0", "-0", "1", "-1", "42", "127", "128", "-128", "-129", "255", "256", "32767", "32768", "65535", "65536", "2147483647", "2147483648", "-2147483648", "4294967295",
-	"9223372036854775807", "9223372036854775808", "-9223372036854775808", "18446744073709551615", "1.5", "-2.25", "1e2", "1E+2", "1.5e-3", "0.1", "3.4028235e38", "1e39", "1e400", "123456789012345678901234567890", "0.000001", "2e0"}
+	"9223372036854775807", "9223372036854775808", "-9223372036854775808", "18446744073709551615", "1.5", "-2.25", "1e2", "1E+2", "1.5e-3", "0.1", "3.4028235e38", "1e39", "1e400", "123456789012345678901234567890", "0.000001", "2e0", "4e38", "1e100", "1.00000005960464477539062500001", "16777217", "0.1e-44", "-3.5e38"}
 
 func randJSONString(r *rand.Rand) string {
 	pool := []string{"", "a", "hello world", "quote\"back\\slash", "tab\tnl\n", "\u00e9\u4e16\u754c", "\u0001ctl", "slash/", "<>&", "\U0001F600", "nul\x00"}
@@ -329,6 +329,91 @@ func famJSON(dir string, seed int64, tier string) {
 			back, eU = reflect.Zero(t), err
 		}
 		w.add(fmt.Sprintf("JsonCase %s %s %s %s %s %s %s", doc.coq(), keepS, coqTokens(ts), classOf(err), tyS, floatTable(ts), uobs(back, eU)), desc, len(fs) >= 3)
+	}
+	// every number form against every numeric target type (scalar position)
+	for _, num := range jsonNumbers {
+		for _, t := range scalarTypes[1:14] {
+			doc := &jnode{kind: "num", text: num}
+			ts, err := decodeJSONImpl(num)
+			if err != nil {
+				rep.violate("C20", "json-decode-error", fmt.Sprintf("DecodeJson failed on the number %s: %v", num, err), num)
+				continue
+			}
+			back, eU := unmarshalInto(t, ts, nil)
+			rep.Evaluations++
+			ref := reflect.New(t)
+			eJ := json.Unmarshal([]byte(num), ref.Interface())
+			desc := fmt.Sprintf("target=%v json=%s", t, num)
+			if (eJ == nil) != (eU == nil) {
+				rep.violate("C20", "differs-from-encoding-json", fmt.Sprintf("sb: %v; encoding/json: %v", eU, eJ), desc)
+			} else if eJ == nil && !equivValues(ref.Elem(), back) {
+				rep.violate("C20", "differs-from-encoding-json", fmt.Sprintf("sb gives %v, encoding/json gives %v", safeFormat(back), safeFormat(ref.Elem())), desc)
+			}
+			w.add(fmt.Sprintf("JsonCase %s None %s %s %s %s %s", doc.coq(), coqTokens(ts), classOf(err), coqTy(t), floatTable(ts), uobs(back, eU)), desc, true)
+		}
+	}
+	// one JSON stream fanned out to several consumers: every consumer must see the document as if alone
+	for _, doc := range []string{"[1,2,300]", "{\"A\":3e2,\"B\":[1.5,2]}", "42", "[0.1,1e2,7]"} {
+		type S struct {
+			A float64
+			B []float64
+		}
+		mk := func() []any {
+			switch doc[0] {
+			case '[':
+				return []any{new([]int16), new([]float64), new([]float32), new([]uint64)}
+			case '{':
+				return []any{new(S), new(struct {
+					A float32
+					B []float32
+				})}
+			default:
+				return []any{new(int8), new(float64), new(uint16)}
+			}
+		}
+		alone := mk()
+		var aloneErr []string
+		for _, t := range alone {
+			e := guard(func() error { return sb.Copy(sb.DecodeJson(strings.NewReader(doc), nil), sb.Unmarshal(t)) })
+			aloneErr = append(aloneErr, classOf(e))
+		}
+		// individually tolerant sinks: an error of one consumer must not be caused by another
+		for i := range alone {
+			for j := range alone {
+				if i == j || aloneErr[i] != "ENone" || aloneErr[j] != "ENone" {
+					continue
+				}
+				both := mk()
+				e := guard(func() error {
+					return sb.Copy(sb.DecodeJson(strings.NewReader(doc), nil), sb.Unmarshal(both[i]), sb.Unmarshal(both[j]))
+				})
+				rep.Evaluations++
+				desc := fmt.Sprintf("fan-out json=%s targets=%T,%T", doc, both[i], both[j])
+				if e != nil || !reflect.DeepEqual(both[i], alone[i]) || !reflect.DeepEqual(both[j], alone[j]) {
+					rep.violate("C20", "fan-out-differs", fmt.Sprintf("two consumers of one JSON stream: %v; values %v / %v, alone %v / %v", e, reflect.ValueOf(both[i]).Elem(), reflect.ValueOf(both[j]).Elem(), reflect.ValueOf(alone[i]).Elem(), reflect.ValueOf(alone[j]).Elem()), desc)
+				}
+			}
+		}
+		// Tee: the downstream consumer still sees literal tokens with their source text
+		var side any
+		if doc[0] == '[' {
+			side = new([]float32)
+		} else if doc[0] == '{' {
+			side = new(S)
+		} else {
+			side = new(float32)
+		}
+		want, _ := decodeJSONImpl(doc)
+		var got []sb.Token
+		e := guard(func() error {
+			var e2 error
+			got, e2 = collectN(sb.Tee(sb.DecodeJson(strings.NewReader(doc), nil), sb.Unmarshal(side)), 10000)
+			return e2
+		})
+		rep.Evaluations++
+		if e != nil || !tokensExactEq(got, want) {
+			rep.violate("C20", "fan-out-differs", fmt.Sprintf("tokens downstream of a Tee with an Unmarshal side sink: (%v) [%s], without it [%s]", e, descTokens(got), descTokens(want)), "tee json="+doc)
+		}
 	}
 	// syntactically broken documents: must be errors (Go oracle only)
 	broken := []string{"[1,2", "{\"a\":1", "[1 2]", "{\"a\" 1}", "{a:1}", "[1,]", "tru", "\"abc", "[}", "{]", "nul", "-", "1e", "[1,2]]", "{\"a\":1}}", "\"\\u12\"", "[\"a\",", "{\"a\":", "{\"a\"", "01", "+1", ".5", "[", "{", ""}
